@@ -381,7 +381,7 @@ func (f *fgen) refundBlock() ([]txgen.Tx, bool) {
 
 // oddWithdraw: a funder withdraws at any stage with an amount around its contribution: one more,
 // zero, negative (to another account), everything.
-func (f *fgen) oddWithdraw(exclNeg bool) (txgen.Tx, bool) {
+func (f *fgen) oddWithdraw() (txgen.Tx, bool) {
 	var all []*PropM
 	for _, id := range f.m.Order {
 		all = append(all, f.m.Props[id])
@@ -413,9 +413,6 @@ func (f *fgen) oddWithdraw(exclNeg bool) (txgen.Tx, bool) {
 		amt, tag = big.NewInt(0), "amt-zero"
 	case 2, 3:
 		amt, tag = big.NewInt(-int64(1+f.u.N(1000000, "ow-neg"))), "amt-neg"
-		if exclNeg {
-			amt, tag = big.NewInt(1), "amt-ok"
-		}
 	default:
 		amt, tag = new(big.Int).Set(o), "amt-all"
 	}
@@ -451,7 +448,7 @@ func (f *fgen) stranger() (txgen.Tx, bool) {
 }
 
 // drawBlock draws the transactions of the next block.
-func (f *fgen) drawBlock(exclNegWithdraw bool) ([]txgen.Tx, string) {
+func (f *fgen) drawBlock() ([]txgen.Tx, string) {
 	// deep-state drivers first: they apply only in particular model states
 	r := f.u.N(100, "blk")
 	if f.next() <= 2 && f.u.N(5, "warmup") != 0 {
@@ -498,7 +495,7 @@ func (f *fgen) drawBlock(exclNegWithdraw bool) ([]txgen.Tx, string) {
 		case a < 73:
 			tx, ok = f.cancel()
 		case a < 81:
-			tx, ok = f.oddWithdraw(exclNegWithdraw)
+			tx, ok = f.oddWithdraw()
 		case a < 88:
 			tx, ok = f.stranger()
 		case a < 92:
